@@ -498,6 +498,9 @@ fn password() -> impl Strategy<Value = String> {
 
 impl Prop for Library {
     type Case = Case;
+    fn max_shrink_iters(&self) -> u32 {
+        150
+    }
     fn name(&self) -> &'static str {
         "library-logs"
     }
